@@ -2,12 +2,13 @@ import Verif
 /-!
 # Driver: reads `cfg` / `ev` / `end` lines on stdin, prints one verdict line per script and check
 -/
-open Verif Verif.Proto Verif.Check Verif.Accept Verif.Twin
+open Verif Verif.Proto Verif.Check Verif.Accept Verif.Twin Verif.Lin
 
 structure Script where
   idx : Nat := 0
   cfg : Option (Cfg × Nat × String) := none
   evs : Array Event := #[]
+  hs : Array HOp := #[]
   bad : Option String := none
   live : Option (Int × Int) := none
 
@@ -15,6 +16,11 @@ def finish (s : Script) : IO Unit := do
   match s.bad, s.cfg with
   | some b, _ => IO.println s!"S {s.idx} BAD {b}"
   | none, none => IO.println s!"S {s.idx} BAD no-cfg"
+  | none, some (cfg, _, "hist") =>
+    match Lin.check cfg s.hs.toList with
+    | (some true, u) => IO.println s!"S {s.idx} LIN OK n={s.hs.size} nodes={u}"
+    | (some false, u) => IO.println s!"S {s.idx} LIN FAIL n={s.hs.size} nodes={u}"
+    | (none, u) => IO.println s!"S {s.idx} LIN UNDECIDED n={s.hs.size} nodes={u}"
   | none, some (cfg, nkeys, mode) =>
     let evs := s.evs.toList
     IO.println s!"S {s.idx} STAT kind={kindName cfg.kind} mode={mode} {(stat evs).show}"
@@ -55,6 +61,11 @@ partial def loop (h : IO.FS.Stream) (s : Script) : IO Unit := do
     match parseEvent rest with
     | some e => loop h { s with evs := s.evs.push e }
     | none => loop h { s with bad := some ("ev: " ++ line.trimAscii.toString) }
+  | "h" :: rest =>
+    if s.bad.isSome then loop h s else
+    match parseH rest with
+    | some e => loop h { s with hs := s.hs.push e }
+    | none => loop h { s with bad := some ("h: " ++ line.trimAscii.toString) }
   | ["end"] =>
     finish s
     loop h { idx := s.idx + 1 }
